@@ -141,6 +141,36 @@ func errName(err error) string {
 	return "other"
 }
 
+// scribble overwrites, in place, everything a read has handed out (every array element, every map value, at every
+// depth): what a caller does to a document it was given must not reach the store, nor what the next read returns
+// (C11: "stored documents read back identical") - a cache or a shallow copy between the store and the caller shows here.
+func scribble(docs ...*d.Document) {
+	var walk func(v interface{})
+	walk = func(v interface{}) {
+		switch x := v.(type) {
+		case map[string]interface{}:
+			for k, e := range x {
+				walk(e)
+				x[k] = uint64(99)
+			}
+		case []interface{}:
+			for i, e := range x {
+				walk(e)
+				x[i] = nil
+			}
+		case []byte:
+			for i := range x {
+				x[i] = 0xEE
+			}
+		}
+	}
+	for _, doc := range docs {
+		if doc != nil {
+			walk(doc.AsMap())
+		}
+	}
+}
+
 func docsLine(docs []*d.Document) string {
 	parts := make([]string, 0, len(docs))
 	for _, doc := range docs {
@@ -212,7 +242,14 @@ func (im *Impl) execGuarded(op J, faultAt int, tracing bool) (res ExecResult) {
 		im.xs.mu.Lock()
 		im.xs.onWriteBegin = func() {
 			var r ExecResult
+			im.xs.mu.Lock()
+			mut0 := im.xs.mutUnderCursor
+			im.xs.mu.Unlock()
 			im.exec(ilOp, &r)
+			// what the interloper does under its own cursors (DropIndex deletes while it scans) is not the operation's
+			im.xs.mu.Lock()
+			im.xs.mutUnderCursor = mut0
+			im.xs.mu.Unlock()
 			if im.postInterloper != nil {
 				im.postInterloper()
 			}
@@ -325,7 +362,9 @@ func (im *Impl) exec(op J, res *ExecResult) string {
 		return result(err, "ok unit")
 	case "findAll":
 		docs, err := db.FindAll(decQuery(op["q"]))
-		return result(err, docsLine(docs))
+		line := docsLine(docs)
+		scribble(docs...)
+		return result(err, line)
 	case "forEach":
 		k := -1
 		if n, ok := op["stopAfter"]; ok && n != nil {
@@ -336,7 +375,9 @@ func (im *Impl) exec(op J, res *ExecResult) string {
 			seen = append(seen, doc)
 			return !(k >= 0 && len(seen) >= k)
 		})
-		return result(err, docsLine(seen))
+		line := docsLine(seen)
+		scribble(seen...)
+		return result(err, line)
 	case "findFirst":
 		doc, err := db.FindFirst(decQuery(op["q"]))
 		if err == nil && doc == nil {
@@ -345,7 +386,9 @@ func (im *Impl) exec(op J, res *ExecResult) string {
 		if err != nil {
 			return result(err, "")
 		}
-		return "ok doc " + canonDoc(doc.AsMap())
+		line := "ok doc " + canonDoc(doc.AsMap())
+		scribble(doc)
+		return line
 	case "exists":
 		ok, err := db.Exists(decQuery(op["q"]))
 		return result(err, "ok bool "+b01(ok))
@@ -360,7 +403,9 @@ func (im *Impl) exec(op J, res *ExecResult) string {
 		if doc == nil {
 			return "ok doc none"
 		}
-		return "ok doc " + canonDoc(doc.AsMap())
+		line := "ok doc " + canonDoc(doc.AsMap())
+		scribble(doc)
+		return line
 	case "deleteById":
 		return result(db.DeleteById(coll, unhx(op["id"].(string))), "ok unit")
 	case "updateById":
